@@ -1,7 +1,8 @@
 --------------------------- MODULE HostAccumulate ---------------------------
 (* Functional definitions of the host calls behind C07 (exact results), C08 (token  *)
-(* conservation) and C09 (storage footprint): gas, lookup, read, write, info, export, *)
-(* checkpoint, new, upgrade, transfer, eject, query, solicit, forget, yield, log.    *)
+(* conservation) and C09 (storage footprint): gas, fetch, lookup, read, write, info,  *)
+(* historical_lookup, export, bless, assign, designate, checkpoint, new, upgrade,    *)
+(* transfer, eject, query, solicit, forget, yield, provide, log.                      *)
 (* Gray Paper 0.7.x Appendix B, reconstructed; balances, thresholds and gas are      *)
 (* exact integers on byte sequences (no value is ever reduced mod 2^64 silently).    *)
 (*                                                                                 *)
@@ -34,6 +35,16 @@
 (*  P-wide     solicit / forget / query with a length argument >= 2^32: not judged   *)
 (*             here (frame only);                                                    *)
 (*  P-info     info answers |v| = 96 (0.7.x) or OK (earlier);                        *)
+(*  P-bless    bless by a service that is not the manager: the privileges are set    *)
+(*             (the code; my reading of 0.7.x, where accumulation merges privileges   *)
+(*             afterwards) or HUH with nothing changed; duplicate service ids in the  *)
+(*             always-accumulate list: not judged;                                   *)
+(*  P-fetch8   fetch selector 8 yields p_f, or its length-prefixed form, or          *)
+(*             p_u ++ length-prefixed p_f (0.6.x);                                    *)
+(*  P-fetchblob fetch selectors 9 (p_j) and 13 (payload) yield the blob raw (my       *)
+(*             reading) or length-prefixed (the code);                               *)
+(*  P-consts   selector 0: the blob is taken from the code and checked structurally   *)
+(*             (134 bytes, B_I, B_L, B_S, C, D, Q, V, W_T, W_X at their offsets);     *)
 (*  P-eject    eject whose balance sum does not fit 64 bits (the Gray Paper has no   *)
 (*             clause: total issuance is below 2^64): any error code or a panic,     *)
 (*             with nothing changed.                                                 *)
@@ -262,15 +273,154 @@ OmExport(s) ==
      ELSE IF c.expoff + c.nexp >= WX THEN <<Ret(s, FULL, c)>>
      ELSE <<Ret(s, U(c.expoff + c.nexp), [c EXCEPT !.nexp = @ + 1, !.expd = Append(@, <<>>)])>>
 
+\* ---------------------------------------------------------------- fetch
+\* What fetch can see is the record s.fx (installed by the driver from the generator's description):
+\*   n: entropy (<<>> = absent), r: [has, v] authorizer trace, i: [has, v] work-item index, x: extrinsic DATA per item,
+\*   imp: import segments per item as pattern ids (byte q of a segment = (7 q + id) mod 251, q = 1..W_G),
+\*   p: [has, host, u, t, j, f, items: <<[s, h, g, a, e, ni, y]>>] the work package, o: number of accumulate inputs;
+\* s.aux carries the values whose layout is the codec's business (C11), encoded by the repository's codec outside fetch:
+\*   consts (selector 0; its layout is checked by ConstsOK), encp = E(p) (<<>>: not encodable here), encx = E(p_x),
+\*   oall = E(var-length inputs), oeach = E(input k).
+\* A selector yields a value only when its source is present, so the accumulate (n, o), refine (r, i, x, imp, p) and
+\* is-authorized (p) contexts differ only in what is installed.
+Seg(pid) == [q \in 1..WG |-> (7 * q + pid) % 251]
+VarLen(v) == IF Len(v) < 128 THEN <<Len(v)>> \o v ELSE <<128 + (Len(v) \div 256), Len(v) % 256>> \o v
+SOf(fx, k) == LET w == fx.p.items[k] nx == IF k <= Len(fx.x) THEN Len(fx.x[k]) ELSE 0 IN
+              w.s \o w.h \o w.g \o w.a \o LE(w.e, 2) \o LE(w.ni, 2) \o LE(nx, 2) \o LE(Len(w.y), 4)
+\* 1-based index named by a 64-bit register into a list of n elements, 0 if out of range
+Idx(reg, n) == IF LtU(reg, U(n)) THEN IntOf(reg) + 1 ELSE 0
+\* the set of values the selector may yield: Some(bytes), NoneV, or Skip (not judged here)
+Some(v) == <<1, v>>
+NoneV == <<0, <<>>>>
+Skip == <<2, <<>>>>
+FetchVals(s) ==
+  LET fx == s.fx aux == s.aux
+      k == IF IsSmallInt(R(s, 10)) /\ Small32(R(s, 10)) THEN IntOf(R(s, 10)) ELSE 99
+      w11 == R(s, 11) w12 == R(s, 12)
+      hasp == fx.p.has = 1
+      item == Idx(w11, IF hasp THEN Len(fx.p.items) ELSE 0)
+      own(list) == IF fx.i.has = 1 /\ fx.i.v < Len(list) THEN fx.i.v + 1 ELSE 0
+  IN CASE k = 0 -> {Some(aux.consts)}
+       [] k = 1 -> IF fx.n = <<>> THEN {NoneV} ELSE {Some(fx.n)}
+       [] k = 2 -> IF fx.r.has = 1 THEN {Some(fx.r.v)} ELSE {NoneV}
+       [] k = 3 -> LET i == Idx(w11, Len(fx.x)) j == IF i = 0 THEN 0 ELSE Idx(w12, Len(fx.x[i])) IN IF j = 0 THEN {NoneV} ELSE {Some(fx.x[i][j])}
+       [] k = 4 -> LET i == own(fx.x) j == IF i = 0 THEN 0 ELSE Idx(w11, Len(fx.x[i])) IN IF j = 0 THEN {NoneV} ELSE {Some(fx.x[i][j])}
+       [] k = 5 -> LET i == Idx(w11, Len(fx.imp)) j == IF i = 0 THEN 0 ELSE Idx(w12, Len(fx.imp[i])) IN IF j = 0 THEN {NoneV} ELSE {Some(Seg(fx.imp[i][j]))}
+       [] k = 6 -> LET i == own(fx.imp) j == IF i = 0 THEN 0 ELSE Idx(w11, Len(fx.imp[i])) IN IF j = 0 THEN {NoneV} ELSE {Some(Seg(fx.imp[i][j]))}
+       [] k = 7 -> IF ~hasp THEN {NoneV} ELSE IF aux.encp = <<>> THEN {Skip} ELSE {Some(aux.encp)}
+       [] k = 8 -> IF ~hasp THEN {NoneV} ELSE {Some(fx.p.f), Some(VarLen(fx.p.f)), Some(fx.p.u \o VarLen(fx.p.f))}          \* P-fetch8
+       [] k = 9 -> IF ~hasp THEN {NoneV} ELSE {Some(fx.p.j), Some(VarLen(fx.p.j))}                                     \* P-fetchblob
+       [] k = 10 -> IF ~hasp THEN {NoneV} ELSE {Some(aux.encx)}
+       [] k = 11 -> IF ~hasp THEN {NoneV} ELSE {Some(<<Len(fx.p.items)>> \o Cat([q \in 1..Len(fx.p.items) |-> SOf(fx, q)]))}
+       [] k = 12 -> IF item = 0 THEN {NoneV} ELSE {Some(SOf(fx, item))}
+       [] k = 13 -> IF item = 0 THEN {NoneV} ELSE {Some(fx.p.items[item].y), Some(VarLen(fx.p.items[item].y))}       \* P-fetchblob
+       [] k = 14 -> IF fx.o = 0 THEN {NoneV} ELSE {Some(aux.oall)}
+       [] k = 15 -> LET i == Idx(w11, fx.o) IN IF i = 0 THEN {NoneV} ELSE {Some(aux.oeach[i])}
+       [] OTHER -> {NoneV}
+RECURSIVE FetchOuts(_, _)
+FetchOuts(s, vs) ==
+  IF vs = {} THEN <<>>
+  ELSE LET v == CHOOSE v \in vs : TRUE IN
+       (IF v[1] = 1 THEN Window(s, v[2], R(s, 7), R(s, 8), R(s, 9)) ELSE <<Ret(s, NONE, s.ctx)>>) \o FetchOuts(s, vs \ {v})
+OmFetch(s) == FetchOuts(s, FetchVals(s))
+\* layout of the constants blob (Gray Paper 0.7.x fetch selector 0): 134 bytes; the fields this specification knows
+ConstsOK(v) == /\ Len(v) = 134
+               /\ Sub(v, 1, 8) = U(BI) /\ Sub(v, 9, 16) = U(1) /\ Sub(v, 17, 24) = U(BS)
+               /\ Sub(v, 25, 26) = LE(NCores, 2) /\ Sub(v, 27, 30) = LE(DExpunge, 4)
+               /\ Sub(v, 85, 86) = LE(QSize, 2) /\ Sub(v, 93, 94) = LE(NValidators, 2)
+               /\ Sub(v, 123, 126) = LE(WT, 4) /\ Sub(v, 127, 130) = LE(3072, 4)
+
+\* ---------------------------------------------------------------- historical_lookup (refine)
+\* the availability rule I(l, t) is C31's (spec/service/Preimages.tla); P2 of that module: an available EMPTY preimage
+\* may be answered as the empty blob or as nothing
+PI == INSTANCE Preimages WITH Services <- {}, Blobs <- {}, MaxT <- 0, D <- 0, MaxEps <- 0, delta <- {}, tau <- 0, hist <- {}, last <- <<>>
+OmHistLookup(s) ==
+  LET c == s.ctx
+      i == IF R(s, 7) = UMax THEN SvcIndex(c.svcs, c.self) ELSE ByReg(c, R(s, 7))
+  IN IF ~Readable(s.acc, R(s, 8), U(32)) THEN <<Panic(s)>>
+     ELSE LET h == Read(s.data, R(s, 8), 32)
+              p == IF i = 0 THEN 0 ELSE PreIndex(c.svcs[i], h)
+              blob == c.svcs[i].pre[p].blob
+              li == IF p = 0 THEN 0 ELSE LkIndex(c.svcs[i], h, LE(Len(blob), 4))
+              avail == li # 0 /\ Len(c.svcs[i].lk[li].slots) <= 3 /\ PI!Avail(c.svcs[i].lk[li].slots, c.t)
+          IN IF ~avail THEN <<Ret(s, NONE, c)>>
+             ELSE Window(s, blob, R(s, 9), R(s, 10), R(s, 11)) \o (IF blob = <<>> THEN <<Ret(s, NONE, c)>> ELSE <<>>)
+
+\* ---------------------------------------------------------------- privileged calls
+\* digest / hash of a guest range recorded by the driver before the call (s.probe / s.probed); <<>> if not recorded
+Probed(s, a, n, kind) ==
+  LET S == {i \in 1..Len(s.probe) : s.probe[i] = <<a, n, kind>>} IN IF S = {} THEN <<>> ELSE s.probed[CHOOSE i \in S : TRUE]
+
+BlessPairs(s) == LET n == IntOf(R(s, 12)) raw == Read(s.data, R(s, 11), 12 * n) IN
+                 [i \in 1..n |-> <<Sub(raw, 12 * i - 11, 12 * i - 8), Sub(raw, 12 * i - 7, 12 * i)>>]
+BlessReadable(s) == Readable(s.acc, R(s, 8), U(4 * NCores)) /\ Readable(s.acc, R(s, 11), BNorm(MulFull(R(s, 12), <<12>>)))
+BlessDup(s) == BlessReadable(s) /\ LET ps == BlessPairs(s) IN \E i, j \in 1..Len(ps) : i < j /\ ps[i][1] = ps[j][1]
+PairLess(a, b) == LtU(a[1], b[1])
+RECURSIVE SortPairs(_)
+SortPairs(ps) == IF ps = <<>> THEN <<>> ELSE InsertBy(SortPairs(Tail(ps)), Head(ps), PairLess)
+OmBless(s) ==
+  LET c == s.ctx IN
+  IF ~BlessReadable(s) THEN <<Panic(s)>>
+  ELSE LET raw == Read(s.data, R(s, 8), 4 * NCores)
+           assigners == [i \in 1..NCores |-> Sub(raw, 4 * i - 3, 4 * i)]
+           who == ~Small32(R(s, 7)) \/ ~Small32(R(s, 9)) \/ ~Small32(R(s, 10))
+           good == Ret(s, OK, [c EXCEPT !.priv = [bless |-> Low4(R(s, 7)), assign |-> assigners, designate |-> Low4(R(s, 9)),
+                                                  create |-> Low4(R(s, 10)), always |-> SortPairs(BlessPairs(s))]])
+           huh == IF c.self # c.priv.bless THEN <<Ret(s, HUH, c)>> ELSE <<>>                            \* P-bless
+       IN IF who THEN <<Ret(s, WHO, c)>> \o huh ELSE <<good>> \o huh
+
+QueueBytes == 32 * QSize
+OmAssign(s) ==
+  LET c == s.ctx core == R(s, 7) o == R(s, 8) a == R(s, 9) IN
+  IF ~Readable(s.acc, o, U(QueueBytes)) THEN <<Panic(s)>>
+  ELSE IF ~LtU(core, U(NCores)) THEN <<Ret(s, CORE, c)>>
+  ELSE LET ci == IntOf(core) + 1
+           huh == c.self # c.priv.assign[ci]
+           who == ~Small32(a)
+           good == Ret(s, OK, [c EXCEPT !.priv.assign[ci] = Low4(a), !.aq[ci] = Probed(s, o, QueueBytes, "fnv")])
+       IN IF huh \/ who THEN (IF huh THEN <<Ret(s, HUH, c)>> ELSE <<>>) \o (IF who THEN <<Ret(s, WHO, c)>> ELSE <<>>)     \* P-order
+          ELSE <<good>>
+
+KeysBytes == 336 * NValidators
+OmDesignate(s) ==
+  LET c == s.ctx o == R(s, 7) IN
+  IF ~Readable(s.acc, o, U(KeysBytes)) THEN <<Panic(s)>>
+  ELSE IF c.self # c.priv.designate THEN <<Ret(s, HUH, c)>>
+  ELSE <<Ret(s, OK, [c EXCEPT !.vk = Probed(s, o, KeysBytes, "fnv")])>>
+
+ProvLess(a, b) == LtU(a[1], b[1]) \/ (a[1] = b[1] /\ CmpLex(a[2], b[2]) = -1)
+OmProvide(s) ==
+  LET c == s.ctx o == R(s, 8) z == R(s, 9)
+      i == IF R(s, 7) = UMax THEN SvcIndex(c.svcs, c.self) ELSE ByReg(c, R(s, 7))
+  IN IF ~Readable(s.acc, o, z) THEN <<Panic(s)>>
+     ELSE IF i = 0 THEN <<Ret(s, WHO, c)>>
+     ELSE LET blob == Read(s.data, o, IntOf(z))
+              h == Probed(s, o, IntOf(z), "b2b")
+              li == LkIndex(c.svcs[i], h, Low4(z))
+              e == <<c.svcs[i].id, blob>>
+          IN IF li = 0 \/ c.svcs[i].lk[li].slots # <<>> THEN <<Ret(s, HUH, c)>>
+             ELSE IF \E q \in 1..Len(c.prov) : c.prov[q] = e THEN <<Ret(s, HUH, c)>>
+             ELSE <<Ret(s, OK, [c EXCEPT !.prov = InsertBy(c.prov, e, ProvLess)])>>
+\* the recorded inputs these definitions need are present
+ProbeOK(k, s) ==
+  CASE k = 15 -> ~Readable(s.acc, R(s, 8), U(QueueBytes)) \/ Probed(s, R(s, 8), QueueBytes, "fnv") # <<>>
+    [] k = 16 -> ~Readable(s.acc, R(s, 7), U(KeysBytes)) \/ Probed(s, R(s, 7), KeysBytes, "fnv") # <<>>
+    [] k = 26 -> ~Readable(s.acc, R(s, 8), R(s, 9)) \/ Probed(s, R(s, 8), IntOf(R(s, 9)), "b2b") # <<>>
+    [] k = 14 -> ~BlessDup(s)
+    [] k = 1 -> "fx" \in DOMAIN s /\ "aux" \in DOMAIN s /\ Skip \notin FetchVals(s)
+    [] OTHER -> TRUE
+
 OmLog(s) == <<Out("cont", s.regs, Gas10(s), FALSE, U64Zero, <<>>, s.ctx, FALSE)>>
 OmUnknown(s) == <<Ret(s, WHAT, s.ctx)>>
 
 \* calls with an exact definition here (given a context that contains the caller's account)
-Functional == {0, 2, 3, 4, 5, 7, 17, 18, 19, 20, 21, 22, 23, 24, 25, 100}
-HasOmega(k, s) == k \in Functional /\ HasSelf(s.ctx) /\ ~(k \in {22, 23, 24} /\ Wide(s))
+Functional == {0, 1, 2, 3, 4, 5, 6, 7, 14, 15, 16, 17, 18, 19, 20, 21, 22, 23, 24, 25, 26, 100}
+NeedsSelf == Functional \ {0, 1, 7, 100}
+HasOmega(k, s) == k \in Functional /\ (k \in NeedsSelf => HasSelf(s.ctx)) /\ ~(k \in {22, 23, 24} /\ Wide(s)) /\ ProbeOK(k, s)
 Omega(k, s) ==
   IF ~GasOK(s.gas) THEN <<OOG(s)>>
-  ELSE CASE k = 0 -> OmGas(s) [] k = 2 -> OmLookup(s) [] k = 3 -> OmRead(s) [] k = 4 -> OmWrite(s) [] k = 5 -> OmInfo(s) [] k = 7 -> OmExport(s)
+  ELSE CASE k = 0 -> OmGas(s) [] k = 1 -> OmFetch(s) [] k = 6 -> OmHistLookup(s) [] k = 14 -> OmBless(s) [] k = 15 -> OmAssign(s)
+         [] k = 16 -> OmDesignate(s) [] k = 26 -> OmProvide(s) [] k = 2 -> OmLookup(s) [] k = 3 -> OmRead(s) [] k = 4 -> OmWrite(s) [] k = 5 -> OmInfo(s) [] k = 7 -> OmExport(s)
          [] k = 17 -> OmCheckpoint(s) [] k = 18 -> OmNew(s) [] k = 19 -> OmUpgrade(s) [] k = 20 -> OmTransfer(s)
          [] k = 21 -> OmEject(s) [] k = 22 -> OmQuery(s) [] k = 23 -> OmSolicit(s) [] k = 24 -> OmForget(s)
          [] k = 25 -> OmYield(s) [] k = 100 -> OmLog(s) [] OTHER -> OmUnknown(s)
